@@ -46,7 +46,7 @@ Proof. vm_compute. reflexivity. Qed.
 (* tie A for the representation the theorems above assume: associations are character / slot INDICES kept as unbounded numbers in the
    models; in the code they live in fields whose narrowest width is regenerated from src/inc/Slot.h and src/inc/CharInfo.h -- wide enough
    that every index below 2^31 (the accessors return int) is stored and read back unchanged, whatever the length of the text. *)
-From GR Require Import Gen.GenLoop Proofs.GenAgreeLoop.
-Theorem C05_association_fields_hold_every_index : forall i : N, (i < 2 ^ 31)%N -> (i mod 2 ^ GenLoop.assoc_index_bits = i)%N /\ (31 < GenLoop.assoc_index_bits)%N.
+From GR Require Import Gen.GenAssoc Proofs.GenAgreeAssoc.
+Theorem C05_association_fields_hold_every_index : forall i : N, (i < 2 ^ 31)%N -> (i mod 2 ^ GenAssoc.assoc_index_bits = i)%N /\ (31 < GenAssoc.assoc_index_bits)%N.
 Proof. exact gen_assoc_index_roundtrip. Qed.
 Print Assumptions C05_association_fields_hold_every_index.
